@@ -43,6 +43,7 @@ structure GwVS where
       service of the VirtualService's own namespace first, any other service of that hostname otherwise (`none` = the
       registry of the base context as it is). -/
   services : Option (List Service) := none
+  exportTo : List String := []     -- `exportTo` (empty = everywhere)
   deriving Repr
 
 def Gateway.fullName (g : Gateway) : String := g.ns ++ "/" ++ g.name
@@ -195,6 +196,9 @@ def collapse : List GwVH → List (GwVH × List String) → List (List String ×
 /-- `buildGatewayHTTPRouteConfig`: the virtual hosts of route `routeName`. -/
 def gwVHosts (base : Ctx) (gws : List Gateway) (vss : List GwVS) (routeName : String) : List VirtualHost :=
   let acc := (gwServers gws routeName).foldl (gwServerLoop base vss) {}
+  -- no server of the router's gateways listens under this route name (none selects the router, or the name is
+  -- unknown): an EMPTY route configuration, without even the blackhole virtual host
+  if (gwServers gws routeName).isEmpty then [] else
   if acc.vhosts.isEmpty then
     [{ name := domainName "blackhole" (((gwServers gws routeName).head?.map (·.2.port)).getD 0), domains := ["*"], routes := [] }]
   else (collapse (sortVHs acc.vhosts) [] []).map fun e =>
